@@ -442,7 +442,11 @@ fn groups(tier: &str) -> Groups {
         subst: substitution_cases(),
         c08: c08_space(!quick),
         sel_creds: selector_creds(),
-        sels: gen::arbitrary_selections(if quick { 3 } else { 4 }, &["a", "b", "zz"]),
+        sels: {
+            let mut v = gen::arbitrary_selections(if quick { 3 } else { 4 }, &["a", "b", "zz"]);
+            v.extend(gen::arbitrary_selections(3, &["a", "_sd", "...", "_sd_alg", "cnf", "iss"]));
+            v
+        },
         issuer: issuer_inputs(),
         deep: deep_cases(),
         garbage_disc: garbage_disclosures(),
